@@ -9,10 +9,10 @@ from vlib import core
 PROPS = "Props/C08.v"
 THEOREMS = ["C08_accept_sound", "C08_invalid_rejected", "C08_reject_sound_partial", "C08_reject_complete",
             "C08_valid_accepted", "C08_normalisation_minimal", "C08_repairs_identity_inside",
-            "C08_margin_box_refuted", "C08_nan_coordinate_refuted", "C08_inf_x0_refuted",
+            "C08_never_overflows", "C08_inf_x0_rejected", "C08_margin_box_refuted", "C08_nan_coordinate_refuted",
             "C08_x0_on_bound_denormal_refuted"]
 LEVEL = "proof"
-RULE = ("D=1: exhaustive over {absent,-inf,+inf,nan,-2,-1,0,1,2}^5 (59049 definitions); D=2: concatenations of "
+RULE = ("D=1: {absent,-inf,+inf,nan,-2,-1,0,1,2}^5 (59049 definitions: all in the thorough tier, a seeded sample of 13500 in the quick tier); D=2: concatenations of "
         "representatives of every (absence pattern, outcome class) cell of the D=1 table; D=3: sampled triples; "
         "metric stream: |v|<=1e6 with plausible bounds / x0 placed at 0, 0.25, 0.5, 2 margins from the hard bounds; "
         "malformed stream: dimension mismatches, D=0; labelled close stream: values 0-100 ulps apart; each definition "
@@ -34,7 +34,6 @@ WITNESSES = {
     # key -> case ; the witnesses of the *_refuted theorems of Props/C08.v, replayed on the real constructor
     "plausible-box-in-margin-rejected": ((0.5,), (0.0,), (1.0,), (0.9995,), (1.0,)),
     "nan-x0-coordinate-rejected": ((B.NAN, 1.0), (0.0, 0.0), (1.0, 1.0), None, None),
-    "inf-x0-overflowerror": ((B.INF,), None, None, (0.0,), (1.0,)),
     "x0-on-bound-denormal": ((B.REALMIN,), (B.REALMIN,), (2 * B.REALMIN,), None, None),
 }
 
@@ -59,12 +58,13 @@ def tie(ctx, broken):
     # ------------------------------------------------------------------ streams
     d1 = B.gen_d1_exhaustive()
     if ctx.quick:
-        # quick tier: the whole sub-domain with plb, pub in {absent, finite} (9^3 * 6^2 = 26244 definitions) and a
-        # sample of the remaining 32805 (a non-finite plausible bound); the thorough tier enumerates all 59049.
+        # quick tier (must stay < 3 min on a loaded machine): a seeded sample of 12000 of the 26244 definitions with
+        # plb, pub in {absent, finite} and 1500 of the other 32805 (a non-finite plausible bound: all rejected by
+        # the finiteness test or earlier); the thorough tier enumerates all 59049.
         fin = lambda v: v is None or math.isfinite(v[0])
         core_ = [c for c in d1 if fin(c[3]) and fin(c[4])]
         rest = [c for c in d1 if not (fin(c[3]) and fin(c[4]))]
-        d1 = core_ + rng.sample(rest, 3000)
+        d1 = rng.sample(core_, 12000) + rng.sample(rest, 1500)
     ctx.coverage["d1_enumerated"] = len(d1)
     streams = [("d1", c) for c in d1]
     streams += [("metric", c) for c in B.gen_metric(rng, 1500 if ctx.quick else 20000)]
@@ -90,8 +90,8 @@ def tie(ctx, broken):
                 pairs.append(B.join_cases([a, b]))
         for _ in range(40 if ctx.quick else 400):
             triples.append(B.join_cases([rng.choice(r_), rng.choice(r_), rng.choice(r_)]))
-    if ctx.quick and len(pairs) > 6000:
-        pairs = rng.sample(pairs, 6000)
+    if ctx.quick and len(pairs) > 3000:
+        pairs = rng.sample(pairs, 3000)
     s2 = [("d2", c) for c in pairs] + [("d3", c) for c in triples]
     res2 = B.run_jobs([(c, "arr", False) for _, c in s2])
     streams += s2
@@ -139,9 +139,10 @@ def tie(ctx, broken):
             model = core.coq_show("C08_show", B.REQUIRES, f"outcome_val (construct {B.coq_defn(c)})", defs=B.COQ_DEFS)
             what = f"model and constructor differ on [{s}] {case_json(c)}: real={_brief(res[i])} model{model[:300]}"
             broken.append(("correspondence:bounds_check", what))
-            # not a restatement of the property (the monitor decides that below): the theorems no longer apply to this code
-            ctx.violate("model-code-disagreement", what, dict(kind="definition", input=case_json(c), spelling="arr",
-                        compare="model", how="cd /verif && ./check C08 --replay <this file>"), concrete=False)
+            # not a restatement of the property (the monitor decides that): the theorems no longer apply to this code.
+            # Reported once, by search(), as broken:correspondence:bounds_check with this input in the replay.
+            ctx.c08_differing = dict(kind="definition", input=case_json(c), spelling="arr", compare="model",
+                                     how="cd /verif && ./check C08 --replay <this file>")
             ctx.coverage["first_disagreements"] = [dict(stream=streams[j][0], input=case_json(streams[j][1]), real=_brief(res[j])) for j in hard_bad[:10]]
         else:
             broken.append(("correspondence:bounds_check", "case files did not compile: " + log[-300:]))
@@ -258,7 +259,9 @@ def spelling_check(ctx, rng, streams, res, found):
 
 
 def search(ctx, broken):
-    """Something is broken and the tie produced no concrete input: run the monitor over fresh metric cases."""
+    """Something is broken and the tie produced no concrete failing input: run the monitor over fresh metric
+    cases.  If no clause of the text fails anywhere, report each broken obligation ONCE (non-concrete); the
+    correspondence one carries the differing definition in its replay."""
     cases = B.gen_metric(ctx.rng, 4000)
     out = B.run_jobs([(c, "arr", False) for c in cases])
     known = {k["key"] for k in core.load_known() if k.get("property") == "C08" and k.get("status") == "open"}
@@ -268,7 +271,12 @@ def search(ctx, broken):
             small = B.shrink(c, m[0])
             ctx.violate(m[0], m[1], dict(kind="definition", input=case_json(small), spelling="arr"))
             return True
-    return False
+    for name, what in broken:
+        rp = dict(broken_obligation=name, detail=what)
+        if name == "correspondence:bounds_check" and getattr(ctx, "c08_differing", None):
+            rp.update(ctx.c08_differing)
+        ctx.violate("broken:" + name, what, rp, concrete=False)
+    return True
 
 
 def replay(ctx, rp):
